@@ -421,7 +421,7 @@ def double_reach_groups(rng, n, gi0):
         sub_cfg = F.RandCfg(depth=3, maxrules=1, preds=True)
         # rule 2: x* then labelled things under an action
         body = g.action(g.seq([g.un("star", g.lit([F.A])), g.label(g.cls((F.A, F.B), (), False, False)),
-                               g.un("opt", g.label(g.lit([F.B])))]))
+                               g.un("opt", g.label(g.lit([F.B])))]), err=rng.random() < 0.4)     # the rule reached twice may report an error (once)
         alts = []
         if rng.random() < 0.4:
             alts.append(g.seq([g.un(rng.choice(["and", "not"]), g.ref(2)), g.label(g.ref(2)), g.un("opt", g.lit([F.B]))]))
@@ -1034,6 +1034,45 @@ def check_C08(tier, seed, replay=None):
     from rt import pairwise
     d2, npairs = pairwise(run, [(i, i + 1) for i in range(0, len(run.variants), 2)], fields=("status", "ok", "end", "val", "errs", "store"))
     div += d2
+    # texts of a few thousand operands (a memo table of thousands of rows: one per offset at which a leader was tried) in between
+    # short ones, in one process: the same calls in the opposite order (a fresh process) return the same, and so do Memoize and
+    # -optimize-parser -- whatever a long parse leaves behind (tables, pools, buffers) must not reach the next one.  Real against
+    # real: the reference evaluation in TLC is quadratic in the length of the text.
+    run_l = Run("C08", tier, seed)
+    lg = F.lr_groups(seed + 5, 8 if tier == "quick" else 40, gi0=1, pure=True)
+    rl = random.Random(seed + 6)
+    def long_text(nops):
+        t = [F.NN]
+        for _ in range(nops):
+            t += [rl.choice([F.PLUS, F.PLUS, F.MINUS, F.STAR_]), F.NN]
+        return t
+    linputs = [long_text(1300), long_text(2), long_text(700), [F.NN], long_text(1), long_text(2600) if tier != "quick" else long_text(1100), long_text(5), [F.NN, F.PLUS]]
+    lopts = [opt(), opt(memo=True)]
+    lpig = P.build_pigeon()
+    fwd = [[gx, ii, oi] for gx in range(len(lg)) for ii in range(len(linputs)) for oi in (0, 1)]
+    bwd = list(reversed(fwd))
+    lvars, lplans = [], []
+    for fl in (["-support-left-recursion"], ["-support-left-recursion", "-optimize-parser"]):
+        for pl_ in (fwd, bwd):
+            lvars.append(P.Variant(len(lvars) + 1, "long%d" % len(lvars), lg, fl))
+            lplans.append(pl_)
+
+    def lprep(iv):
+        v, pl_ = iv
+        if not v.generate(lpig):
+            raise P.Inconclusive("pigeon rejected the long-text pack: " + v.gen_err)
+        if not v.build():
+            raise P.Inconclusive("build failed: " + v.build_err)
+        return v.run(linputs, lopts, pl_, timeout_ms=60000)
+    run_l.obs = P.parallel(lprep, list(zip(lvars, lplans)))
+    run_l.variants, run_l.groups, run_l.inputs, run_l.options = lvars, lg, linputs, lopts
+    dl, nl = pairwise(run_l, [(0, 1), (2, 3), (0, 2)], fields=("status", "ok", "end", "val", "errs"))
+    dm, nm = pairwise(run_l, [(0, 0), (2, 2)], fields=("status", "ok", "end", "val", "errs"), optmap={1: 2})
+    for d in dl + dm:
+        run.violation(run_l.replay_path(d), "long texts in between short ones: %s differs (group %d, input %d of %d bytes): call order / Memoize / -optimize-parser changed a result" % (
+            d["df"], d["gi"], d["ii"], len(linputs[d["ii"] - 1])))
+    npairs += nl + nm
+    run.cov["long_texts"] = dict(groups=len(lg), bytes=[len(x) for x in linputs], pairs_compared=nl + nm)
     # design level: the seed-growing machine (parseRuleRecursiveLeader in M) refines the iterative meaning; T2 on the real Debug traces
     design_level(run, groups, inputs, options, lambda g: [0, 1], 60 if tier == "quick" else 600, inputs_idx=range(0, len(inputs), 4))
     t2_bind(run, 1500 if tier == "quick" else 10000)
